@@ -1,13 +1,16 @@
 package main
 
 import (
+	"bytes"
 	"fmt"
+	"time"
 
 	"github.com/gogo/protobuf/proto"
 	abci "github.com/tendermint/tendermint/abci/types"
 	tmbytes "github.com/tendermint/tendermint/libs/bytes"
 	rpcclient "github.com/tendermint/tendermint/rpc/client"
 	ctypes "github.com/tendermint/tendermint/rpc/core/types"
+	tmtypes "github.com/tendermint/tendermint/types"
 
 	"github.com/cosmos/cosmos-sdk/client"
 	sdk "github.com/cosmos/cosmos-sdk/types"
@@ -26,6 +29,18 @@ type stubNode struct {
 	ctx    sdk.Context
 	k      servicekeeper.Keeper
 	blocks map[int64][]abci.Event
+	txs    map[string]*ctypes.ResultTx // transactions the node has indexed, by hash
+}
+
+func (n stubNode) Tx(hash []byte, _ bool) (*ctypes.ResultTx, error) {
+	if tx, ok := n.txs[string(hash)]; ok {
+		return tx, nil
+	}
+	return nil, fmt.Errorf("tx %X not found", hash)
+}
+
+func (n stubNode) Block(height *int64) (*ctypes.ResultBlock, error) {
+	return &ctypes.ResultBlock{Block: &tmtypes.Block{Header: tmtypes.Header{Height: *height, Time: time.Unix(1600000000, 0)}}}, nil
 }
 
 func (n stubNode) ABCIQueryWithOptions(path string, data tmbytes.HexBytes, _ rpcclient.ABCIQueryOptions) (*ctypes.ResultABCIQuery, error) {
@@ -84,6 +99,61 @@ func clientRecovery(x *OCtx, t *Trans, newIDs []string) []Violation {
 		case got.String() != want.String():
 			out = append(out, viol("C18", "client-finds-the-request-again-from-its-id", "E", "differs",
 				fmt.Sprintf("client recovery of %s returns %s, the store has %s", shortReq(id), clip(got.String()), clip(want.String()))))
+		}
+	}
+	out = append(out, clientRecoveryAfterCleaning(x, t, newIDs)...)
+	return out
+}
+
+// clientRecoveryAfterCleaning: the same recovery as a client would run it later, when the batch has been cleaned and
+// the (one-shot, user-created) context has left the state: the node's state no longer has the context record, the
+// helper falls back to the transaction that created it (the ID's first 32 bytes are its hash), which the node stub
+// serves as an indexed transaction holding the very message the scenario delivered.
+func clientRecoveryAfterCleaning(x *OCtx, t *Trans, newIDs []string) []Violation {
+	var out []Violation
+	for _, id := range newIDs {
+		r := t.Post.Reqs[id]
+		cid := hexs(r.RequestContextId)
+		c := t.Post.Ctxs[cid]
+		ti := -1
+		for i := range x.Sc.Templates {
+			if bytes.Equal(x.Sc.CtxID(i), r.RequestContextId) && x.Sc.Templates[i].Module == "" && x.Sc.Templates[i].SameTxAs == "" {
+				ti = i
+			}
+		}
+		if c == nil || ti < 0 || c.ModuleName != "" {
+			continue
+		}
+		msg := x.Sc.actCall(ti).Msg
+		txb := encCfg.TxConfig.NewTxBuilder()
+		if err := txb.SetMsgs(msg); err != nil {
+			panic(err)
+		}
+		txBytes, err := encCfg.TxConfig.TxEncoder()(txb.GetTx())
+		if err != nil {
+			panic(err)
+		}
+		hash := x.Sc.TxHash(ti)
+		// the state of the node later on: everything as after this block, minus the context record
+		ctx, _ := x.Rig.ReadCtx(t.Post.S).CacheContext()
+		ctx.KVStore(x.Rig.keyMap[st.StoreKey]).Delete(st.GetRequestContextKey(r.RequestContextId))
+		node := stubNode{ctx: ctx, k: x.Rig.sk, blocks: map[int64][]abci.Event{t.Pre.H: toABCI(t.Res.Events)},
+			txs: map[string]*ctypes.ResultTx{string(hash): {Hash: hash, Height: t.Pre.H, Tx: txBytes}}}
+		cliCtx := client.Context{}.WithClient(node).WithTxConfig(encCfg.TxConfig).WithInterfaceRegistry(encCfg.InterfaceRegistry).
+			WithJSONMarshaler(encCfg.Marshaler).WithLegacyAmino(encCfg.Amino)
+		want := reconstruct(t.Post, id)
+		var got st.Request
+		if p, _ := tryPanic(func() { got, err = utils.QueryRequestByTxQuery(cliCtx, st.QuerierRoute, mustHex(id)) }); p != "" {
+			out = append(out, viol("C18", "client-finds-the-request-again-from-its-id", "E", "after-cleaning/panic", "client recovery of "+shortReq(id)+" after its context left the state panics: "+p))
+			continue
+		}
+		x.Wit("C18:client-recovery-after-cleaning-compared")
+		switch {
+		case err != nil:
+			out = append(out, viol("C18", "client-finds-the-request-again-from-its-id", "E", "after-cleaning/error", "client recovery of "+shortReq(id)+" after its context left the state fails: "+err.Error()))
+		case got.String() != want.String():
+			out = append(out, viol("C18", "client-finds-the-request-again-from-its-id", "E", "after-cleaning/differs",
+				fmt.Sprintf("client recovery of %s after its context left the state returns %s, the store had %s", shortReq(id), clip(got.String()), clip(want.String()))))
 		}
 	}
 	return out
